@@ -46,16 +46,21 @@ theorem reach_ty (T : Tables) (tb : Spec.TableId) (pre : List Str) (m : MTable) 
   apply entries_lookup pre k m (.ty t) hl
   simp [Spec.entriesMeta]
 
+/-- `m` is one of the tables nested (at any depth) inside `top`, or `top` itself -/
+inductive IsSub : MTable → MTable → Prop
+  | refl (m : MTable) : IsSub m m
+  | step {top m m' : MTable} (k : Str) : IsSub top m → lookup k m = some (.map m') → IsSub top m'
+
 /-- where an answer of the lookup functions comes from -/
 def ProvAt (T : Tables) (kp : List Str) : Option Meta → Prop
   | some (.ty t) => ∃ tb p, (p, t) ∈ Spec.entries [] (tbl T tb) ∧ p.Sublist kp
-  | some (.map m) => ∃ tb pre, Reach T tb pre m ∧ pre.Sublist kp
+  | some (.map m) => ∃ tb pre, Reach T tb pre m ∧ pre.Sublist kp ∧ IsSub (tbl T tb) m
   | _ => True
 
 theorem provAt_lookup (T : Tables) (tb : Spec.TableId) (pre : List Str) (m : MTable) (k : Str) (kp : List Str)
-    (h : Reach T tb pre m) (hs : (pre ++ [k]).Sublist kp) : ∀ x, lookup k m = some x → ProvAt T kp (some x)
+    (h : Reach T tb pre m) (hsub : IsSub (tbl T tb) m) (hs : (pre ++ [k]).Sublist kp) : ∀ x, lookup k m = some x → ProvAt T kp (some x)
   | .ty t, hl => ⟨tb, pre ++ [k], reach_ty T tb pre m k t h hl, hs⟩
-  | .map m', hl => ⟨tb, pre ++ [k], reach_sub T tb pre m m' k h hl, hs⟩
+  | .map m', hl => ⟨tb, pre ++ [k], reach_sub T tb pre m m' k h hl, hs, .step k hsub hl⟩
   | .nil, _ => trivial
 
 /-! ### the two path helpers keep subsequences -/
@@ -110,16 +115,16 @@ theorem cut_sublist (part : Str) (full : List Str) (h : part ∈ full) :
 /-- the outcome of one pass of the loop -/
 def StepProv (T : Tables) (kp : List Str) : Step → Prop
   | .done r => ProvAt T kp r
-  | .restart p t => ∃ tb pre, Reach T tb pre t ∧ (pre ++ p).Sublist kp
+  | .restart p t => ∃ tb pre, Reach T tb pre t ∧ (pre ++ p).Sublist kp ∧ IsSub (tbl T tb) t
 
 theorem traverseLoop_prov (T : Tables) (S : Bool) (full kp : List Str) (hfull : full.Sublist kp) :
     ∀ (rest : List Str) (m : MTable) (tb : Spec.TableId) (pre done : List Str),
-      Reach T tb pre m → full = done ++ rest → (pre ++ rest).Sublist kp →
+      Reach T tb pre m → IsSub (tbl T tb) m → full = done ++ rest → (pre ++ rest).Sublist kp →
       StepProv T kp (traverseLoop T S full rest m)
-  | [], m, tb, pre, _, hr, _, hs => by
+  | [], m, tb, pre, _, hr, hsub, _, hs => by
     simp only [traverseLoop, StepProv, ProvAt]
-    exact ⟨tb, pre, hr, by simpa using hs⟩
-  | part :: rest, m, tb, pre, done, hr, hd, hs => by
+    exact ⟨tb, pre, hr, by simpa using hs, hsub⟩
+  | part :: rest, m, tb, pre, done, hr, hsub, hd, hs => by
     have hmem : part ∈ full := by rw [hd]; simp
     have hs1 : (pre ++ [part]).Sublist kp := by
       refine List.Sublist.trans ?_ hs
@@ -135,31 +140,31 @@ theorem traverseLoop_prov (T : Tables) (S : Bool) (full kp : List Str) (hfull : 
         have hrest : rest.Sublist kp :=
           List.Sublist.trans ((List.sublist_cons_self part rest).trans (List.sublist_append_right pre _)) hs
         cases S
-        · exact ⟨.core, [], reach_top T .core, by simpa using hrest⟩
-        · exact ⟨.search, [], reach_top T .search, by simpa using hrest⟩
+        · exact ⟨.core, [], reach_top T .core, by simpa using hrest, .refl _⟩
+        · exact ⟨.search, [], reach_top T .search, by simpa using hrest, .refl _⟩
       · split
         · -- OperatorMap
           have hcut := (cut_sublist part full hmem).trans hfull
           cases hom : lookup part T.opMapDefs with
-          | none => simp only [StepProv]; exact provAt_lookup T tb pre m part kp hr hs1 val hl
+          | none => simp only [StepProv]; exact provAt_lookup T tb pre m part kp hr hsub hs1 val hl
           | some om =>
             cases om with
             | map om' =>
               simp only []
               split
               · simp only [StepProv]
-                refine ⟨.opMapDefs, [part], ?_, by simpa using hcut⟩
+                refine ⟨.opMapDefs, [part], ?_, by simpa using hcut, .step part (.refl _) hom⟩
                 have := reach_sub T .opMapDefs [] T.opMapDefs om' part (reach_top T .opMapDefs) hom
                 simpa using this
-              · simp only [StepProv]; exact provAt_lookup T tb pre m part kp hr hs1 val hl
-            | ty t => simp only [StepProv]; exact provAt_lookup T tb pre m part kp hr hs1 val hl
-            | nil => simp only [StepProv]; exact provAt_lookup T tb pre m part kp hr hs1 val hl
+              · simp only [StepProv]; exact provAt_lookup T tb pre m part kp hr hsub hs1 val hl
+            | ty t => simp only [StepProv]; exact provAt_lookup T tb pre m part kp hr hsub hs1 val hl
+            | nil => simp only [StepProv]; exact provAt_lookup T tb pre m part kp hr hsub hs1 val hl
         · cases rest with
           | nil =>
             cases val with
             | nil => simp [StepProv, ProvAt]
-            | ty t => simp only [StepProv]; exact provAt_lookup T tb pre m part kp hr hs1 _ hl
-            | map m' => simp only [StepProv]; exact provAt_lookup T tb pre m part kp hr hs1 _ hl
+            | ty t => simp only [StepProv]; exact provAt_lookup T tb pre m part kp hr hsub hs1 _ hl
+            | map m' => simp only [StepProv]; exact provAt_lookup T tb pre m part kp hr hsub hs1 _ hl
           | cons r rs =>
             cases val with
             | nil => simp [StepProv, ProvAt]
@@ -167,22 +172,22 @@ theorem traverseLoop_prov (T : Tables) (S : Bool) (full kp : List Str) (hfull : 
             | map m' =>
               simp only []
               exact traverseLoop_prov T S full kp hfull (r :: rs) m' tb (pre ++ [part]) (done ++ [part])
-                (reach_sub T tb pre m m' part hr hl) (by simp [hd]) (by simpa using hs)
+                (reach_sub T tb pre m m' part hr hl) (.step part hsub hl) (by simp [hd]) (by simpa using hs)
 
 theorem traverseFuel_prov (T : Tables) (S : Bool) (kp : List Str) :
     ∀ (fuel : Nat) (full : List Str) (m : MTable) (tb : Spec.TableId) (pre : List Str),
-      Reach T tb pre m → (pre ++ full).Sublist kp → ProvAt T kp (traverseFuel T S fuel full m)
-  | 0, _, _, _, _, _, _ => by simp [traverseFuel, ProvAt]
-  | fuel + 1, full, m, tb, pre, hr, hs => by
+      Reach T tb pre m → IsSub (tbl T tb) m → (pre ++ full).Sublist kp → ProvAt T kp (traverseFuel T S fuel full m)
+  | 0, _, _, _, _, _, _, _ => by simp [traverseFuel, ProvAt]
+  | fuel + 1, full, m, tb, pre, hr, hsub, hs => by
     have hfull : full.Sublist kp := (List.sublist_append_right pre full).trans hs
-    have := traverseLoop_prov T S full kp hfull full m tb pre [] hr (by simp) hs
+    have := traverseLoop_prov T S full kp hfull full m tb pre [] hr hsub (by simp) hs
     simp only [traverseFuel]
     cases hstep : traverseLoop T S full full m with
     | done r => simpa [hstep, StepProv] using this
     | restart p t =>
       simp only [hstep, StepProv] at this
-      obtain ⟨tb', pre', hr', hs'⟩ := this
-      exact traverseFuel_prov T S kp fuel p t tb' pre' hr' hs'
+      obtain ⟨tb', pre', hr', hs', hsub'⟩ := this
+      exact traverseFuel_prov T S kp fuel p t tb' pre' hr' hsub' hs'
 
 theorem getLastD_mem_cons : ∀ (l : List Str) (a : Str), l.getLastD a ∈ a :: l
   | [], a => by simp
@@ -205,12 +210,12 @@ theorem getOp_prov (T : Tables) (kp : List Str) (S : Bool) (h : kp ≠ []) : Pro
   cases S
   · simp only [Bool.false_eq_true, if_false]
     cases hl : lookup (lastD kp) T.core with
-    | some m => exact provAt_lookup T .core [] T.core (lastD kp) kp (reach_top T .core) (by simpa using lastD_sublist kp h) m hl
-    | none => exact traverseFuel_prov T false kp _ kp T.agg .agg [] (reach_top T .agg) (by simp)
+    | some m => exact provAt_lookup T .core [] T.core (lastD kp) kp (reach_top T .core) (.refl _) (by simpa using lastD_sublist kp h) m hl
+    | none => exact traverseFuel_prov T false kp _ kp T.agg .agg [] (reach_top T .agg) (.refl _) (by simp)
   · simp only [if_true]
     cases ht : traverse T true kp T.searchAgg with
     | some m =>
-      have := traverseFuel_prov T true kp (kp.length + 1) kp T.searchAgg .searchAgg [] (reach_top T .searchAgg) (by simp)
+      have := traverseFuel_prov T true kp (kp.length + 1) kp T.searchAgg .searchAgg [] (reach_top T .searchAgg) (.refl _) (by simp)
       unfold traverse at ht
       rw [ht] at this
       exact this
@@ -219,7 +224,7 @@ theorem getOp_prov (T : Tables) (kp : List Str) (S : Bool) (h : kp ≠ []) : Pro
       · simp only [hu, if_true]; trivial
       · simp only [hu, if_false]
         cases hl : lookup (lastD kp) T.search with
-        | some m => exact provAt_lookup T .search [] T.search (lastD kp) kp (reach_top T .search) (by simpa using lastD_sublist kp h) m hl
+        | some m => exact provAt_lookup T .search [] T.search (lastD kp) kp (reach_top T .search) (.refl _) (by simpa using lastD_sublist kp h) m hl
         | none => trivial
 
 end Anonymongo
